@@ -32,7 +32,7 @@ CONSTANTS
     ScSets,      \* set of soft-criteria settings [ordmin, ordmax, efn, exi, ephi] (tolerances <<num, den>>)
     ExSets,      \* set of extraction requests [req, kind, ords, rtol]; kind: "find_min" | "int" | "list";
                  \* ords[i] = order value for request i (kind "int": all equal)
-    DrawSets,    \* set of [hide]
+    DrawSets,    \* set of [hide, flim] (flim: id of the frequency limits handed to the plot, 0 = none)
     Focus        \* "hc" | "label" | "extract" | "draw" | "pipeline"
 
 VARIABLES tab, raw, adm, out, marks, stage, act
@@ -147,7 +147,8 @@ Draw(d) ==
     /\ marks' = [stable   |-> {<<r, c>> \in Rows \X Cols : Stable(r, c)},
                  unstable |-> IF d.hide THEN {}
                               ELSE {<<r, c>> \in Rows \X Cols : ~IsNaN(tab[r][c]) /\ ~Stable(r, c)},
-                 hide |-> d.hide]
+                 hide |-> d.hide,
+                 flim |-> d.flim]          \* frequency limits only move the view: they never change which markers exist
     /\ stage' = "drawn"
     /\ UNCHANGED <<tab, raw, adm, out>>
     /\ act' = [name |-> "Draw", d |-> d]
